@@ -130,7 +130,16 @@ Definition node_rule (t : tree) : option N := match t with Node (KRule r) _ => S
 Definition is_name (t : tree) : bool := match t with Leaf KName _ _ _ _ => true | _ => false end.
 Definition is_param (t : tree) : bool := match t with Node KParam _ => true | _ => false end.
 
-Inductive perr := IncompleteInput | TooMuchInput | PFuel | PAttr | PIndex | SyntaxErr (t : Token).
+(* the text of a tree: prefix ++ value of its leaves in order (NodeOrLeaf.get_code) *)
+Fixpoint tcode (t : tree) : str :=
+  match t with
+  | Leaf _ v p _ _ => p ++ v
+  | Node _ cs => (fix go (l : list tree) : str := match l with [] => [] | c :: r => tcode c ++ go r end) cs
+  end.
+Definition is_nil_t (l : list tree) : bool := match l with [] => true | _ => false end.
+Definition no_text (t : tree) : bool := match tcode t with [] => true | _ => false end.
+
+Inductive perr := IncompleteInput | TooMuchInput | PFuel | PAttr | PIndex | PGuard | SyntaxErr (t : Token).
 Inductive pres (A : Type) := POk (a : A) | PErr (e : perr).
 Arguments POk {A}. Arguments PErr {A}.
 
@@ -178,19 +187,24 @@ Fixpoint split_params (children : list tree) (cur : list tree) : list tree :=
   | c :: t => if is_op c comma then flush (cur ++ [c]) ++ split_params t []
               else split_params t (cur ++ [c])
   end.
-Definition create_params (argslist : list tree) : option (list tree) :=
+(* Guards (PGuard): the Python code takes parameters.children[1:-1] / the lambda's middle children, which the grammar
+   makes a list of at most one element, and drops suite.children[1] and [-1], which the grammar makes the zero-width
+   INDENT/DEDENT leaves.  The model checks these facts where the code relies on them silently; the parse
+   correspondence shows that PGuard never occurs on generated inputs. *)
+Definition create_params (argslist : list tree) : pres (list tree) :=
   match argslist with
-  | [] => Some []
-  | first :: _ =>
+  | [] => POk []
+  | first :: rest =>
+    if negb (is_nil_t rest) then PErr PGuard else
     if is_name first || match node_rule first with Some r => r =? r_fpdef G | None => false end
-    then Some [Node KParam [first]]
-    else if is_op first star then Some [first]
+    then POk [Node KParam [first]]
+    else if is_op first star then POk [first]
     else
       let children := match node_rule first with
                       | Some r => if r =? r_tfpdef G then Some [first]
                                   else match first with Node _ cs => Some cs | _ => None end
                       | None => match first with Node _ cs => Some cs | _ => None end end in
-      match children with Some cs => Some (split_params cs []) | None => None end
+      match children with Some cs => POk (split_params cs []) | None => PErr PAttr end
   end.
 
 
@@ -205,12 +219,13 @@ Fixpoint regroup_func (cs : list tree) : pres (list tree) :=
       let inner := removelast (tl pcs) in
       if existsb is_param inner then POk (cs)
       else match create_params inner with
-           | None => PErr PAttr
-           | Some np => match pcs with
-                        | p0 :: _ => match rev pcs with
-                                     | pl :: _ => POk (Node (KRule pr) (p0 :: np ++ [pl]) :: t)
-                                     | [] => PErr PIndex end
-                        | [] => PErr PIndex end
+           | PErr e => PErr e
+           | POk np => match pcs with
+                       | p0 :: _ :: _ => match rev pcs with
+                                         | pl :: _ => POk (Node (KRule pr) (p0 :: np ++ [pl]) :: t)
+                                         | [] => PErr PIndex end
+                       | [_] => PErr PGuard
+                       | [] => PErr PIndex end
            end
     else match regroup_func t with POk t' => POk (Node (KRule pr) pcs :: t') | PErr e => PErr e end
   | c :: t => match regroup_func t with POk t' => POk (c :: t') | PErr e => PErr e end
@@ -219,7 +234,9 @@ Fixpoint regroup_func (cs : list tree) : pres (list tree) :=
 Definition convert_node (r : N) (children : list tree) : pres tree :=
   if r =? r_suite G then
     match children with
-    | c0 :: _ :: rest => POk (Node (KRule r) (c0 :: removelast rest))
+    | c0 :: c1 :: rest =>
+      if no_text c1 && match rev rest with [] => true | cl :: _ => no_text cl end
+      then POk (Node (KRule r) (c0 :: removelast rest)) else PErr PGuard
     | [c0] => POk (Node (KRule r) [c0])     (* [children[0]] + children[2:-1] *)
     | [] => PErr PIndex
     end
@@ -233,8 +250,8 @@ Definition convert_node (r : N) (children : list tree) : pres tree :=
       let tail := skipn (n - 2) rest in
       if existsb is_param params then POk (Node (KRule (r_lambdef G)) children)
       else match create_params params with
-           | None => PErr PAttr
-           | Some np => POk (Node (KRule (r_lambdef G)) (kw :: np ++ tail))
+           | PErr e => PErr e
+           | POk np => POk (Node (KRule (r_lambdef G)) (kw :: np ++ tail))
            end
     | [] => PErr PIndex
     end
